@@ -2,7 +2,7 @@
 /* the FW-character field exactly as fscanf("%20c") leaves it: no terminator, so any read past the field is a bounds violation */
 char in_buf[FW]; int_t in_num, in_size;
 /* ghosts: expected values and token positions */
-int_t g_n, g_w, g_k, g_hasp, g_po, g_pk, g_lk, g_pp, g_pn, g_ln, g_pe, g_pw, g_lw, g_pd, g_pcomma, g_ret; char g_buf0[FW];
+int_t g_n, g_w, g_k, g_hasp, g_po, g_pk, g_lk, g_pp, g_pn, g_ln, g_pe, g_pw, g_lw, g_pd, g_ret; char g_buf0[FW];
 #if RB
 void @p@readrb(int_t *, int_t *, int_t *, @T@ **, int_t **, int_t **);
 int_t in_nrow, in_ncol, in_nonz; @T@ *in_nzval; int_t *in_rowind, *in_colptr; int g_called;
@@ -16,13 +16,17 @@ void h_fmt(void) {
   g_ret = @p@ParseFloatFormat(in_buf, &in_num, &in_size);
 #endif
   __CPROVER_assert(0, "canary: parser returns");
-  if (g_hasp && g_pk > g_po + 1 && g_pp > g_pk + g_lk && g_pn > g_pp + 1 && g_pe > g_pn + g_ln && g_pw > g_pe + 1 && g_pd > g_pw + g_lw) __CPROVER_assert(0, "canary: blanks at every legal place");
-  if (g_hasp && g_n == 99 && g_w == 99 && g_k == 99) __CPROVER_assert(0, "canary: two-digit values");
-  if (!g_hasp) __CPROVER_assert(0, "canary: no scale factor");
-  if (g_buf0[g_pe] == 'd' && g_hasp && g_buf0[g_pp] == 'p') __CPROVER_assert(0, "canary: lower case");
+#if HASP
+  if (g_pk > g_po + 1 && g_pp > g_pk + g_lk && g_pn > g_pp + 1 && g_pe > g_pn + g_ln && g_pw > g_pe + 1 && g_pd > g_pw + g_lw) __CPROVER_assert(0, "canary: blanks at every legal place");
+  if (g_n == 99 && g_w == 99 && g_k == 99) __CPROVER_assert(0, "canary: two-digit values");
+  if (g_buf0[g_pe] == 'd' && g_buf0[g_pp] == 'p') __CPROVER_assert(0, "canary: lower case");
+  if (g_k == 1 && g_n == 5 && g_w == 16 && g_po == 0 && g_pd == 7 && g_buf0[8] == '8' && g_buf0[9] == ')') __CPROVER_assert(0, "canary: (1P5E16.8)");
+#else
+  if (g_pn > g_po + 1 && g_pe > g_pn + g_ln && g_pw > g_pe + 1 && g_pd > g_pw + g_lw) __CPROVER_assert(0, "canary: blanks at every legal place");
+  if (g_n == 99 && g_w == 99) __CPROVER_assert(0, "canary: two-digit values");
+  if (g_buf0[g_pe] == 'e') __CPROVER_assert(0, "canary: lower case");
+  if (g_n == 4 && g_w == 20 && g_po == 0 && g_pd == 6 && g_buf0[g_pe] == 'D') __CPROVER_assert(0, "canary: (4D20.12)");
+#endif
   if (g_buf0[g_pe] == 'F' && g_buf0[g_pd] == ')') __CPROVER_assert(0, "canary: F without fraction");
   if (g_pd == FW - 1 && g_po == 0) __CPROVER_assert(0, "canary: '.' is the last character of the field");
-#if !NOREP && !COMMA
-  if (g_hasp && g_k == 1 && g_n == 5 && g_w == 16 && g_po == 0 && g_pd == 7 && g_buf0[8] == '8' && g_buf0[9] == ')') __CPROVER_assert(0, "canary: (1P5E16.8)");
-#endif
 }
